@@ -508,10 +508,10 @@ theorem C02_failures_are_failures (rest : List Action) (c : Pm.Dev2.CS) (a : Act
   ⟨Pm.Dev2.E2E.onTimeout_noSuccess rest c a o out tmo cid, fun he => Pm.Dev2.E2E.failAll_noSuccess rest c a o out tmo he cid⟩
 
 /-- `dev_initial_connect` (start-up) keeps the invariant: it only adds login actions, which belong to no client -/
-theorem C02_Inv_initial_connect (w : W) (now con soe : Nat) (h : Inv w) : Inv (initialConnect w now con soe).1 :=
+theorem C02_Inv_initial_connect (w : W) (now : Nat) (con soe : List Nat) (h : Inv w) : Inv (initialConnect w now con soe).1 :=
   initialConnect_inv w now con soe h
 
-example : Inv (initialConnect Ex.w0 0 0 0).1 := C02_Inv_initial_connect Ex.w0 0 0 0 Ex.inv0
+example : Inv (initialConnect Ex.w0 0 [0] [0]).1 := C02_Inv_initial_connect Ex.w0 0 [0] [0] Ex.inv0
 
 /-- **What can become of a command over a run** (no pass ending in an assertion): it is still in progress at the end (and
     then `C02_track` says with what `pending` and error flag); or there is a pass `p` of the run before which it is in
